@@ -30,6 +30,9 @@ def main():
         for name, res in ex.map(run, names):
             results[name] = res
             print(name, res, flush=True)
+    mine = {n: results[n] for n in names if n in results}
+    results = json.load(open(rp)) if os.path.exists(rp) else {}     # re-read: another run may have finished meanwhile
+    results.update(mine)
     json.dump(results, open(rp, "w"), indent=1, sort_keys=True)
     lines = ["# Seeded changes and what catches them", "",
              "Each row is a change to calamine written by an independent sub-agent that saw only the property text",
